@@ -5,6 +5,8 @@ import GceTcb.Proofs.TdxIntervals
 import GceTcb.Proofs.TdxShapes
 import GceTcb.Proofs.TdxHob
 import GceTcb.Proofs.TdxCompose
+import GceTcb.Proofs.TdxMain
+import GceTcb.Proofs.TdxExample
 /-
 C05 — TDX golden MRTD equals the TDX build-time measurement of the TDVF layout.
 -/
@@ -244,37 +246,142 @@ theorem C05_measure_all_forces_extend (fw : Bytes) (s : Codecs.TdxSection) (st s
   all_goals (injection h with h; subst h; simp only [List.mem_append, List.mem_singleton] at hr)
   all_goals (rcases hr with hr | hr; exact absurd hr hn; subst hr; simp only []; exact or_one_and_one _)
 
-/-- The full end-to-end statement of C05: for every hash, image, option combination and well-formed
-    bank list, if tdx.MRTD returns a digest then it is the hash of the specification's stream for the
-    declared sections (contents from the image for firmware volumes, the specification's hand-off block
-    for the TD HOB, zeros otherwise). -/
-def C05_mrtd_eq_spec_statement : Prop :=
-  ∀ (H : Bytes → Bytes) (o : LaunchOptions) (fw d : Bytes) (md : Codecs.TdxMetadata),
-    fw.length < 2 ^ 36 → md.sections.length + o.banks.length < 2 ^ 24 →
-    NoOverflow o.banks → DisjointL o.banks →
-    extractTDXMetadata fw = .ok md → mrtd H o fw = .ok d →
-    Spec.Mrtd.mrtdOf H
-      (if o.disableUnacceptedMemory then .measureAllEarly else if o.measureAllRegions then .measureAll else .default)
-      fw (o.banks.map fun g => (g.start, g.len))
-      (md.sections.map fun s => ⟨s.dataOffset, s.dataSize, s.memoryBase, s.memorySize, s.sectionType, s.attributes⟩)
-      = some d
+/-! ## the end-to-end theorem -/
 
-/-- PROVED PART of `C05_mrtd_eq_spec_statement` (every hash, image below 64 GiB, option combination,
-    bank list): a digest returned by tdx.MRTD is the hash of the specification's PAGE.ADD / MR.EXTEND
-    record stream of the regions ExtractMaterialGuestPhysicalRegions* returned, in their order, page by
-    page, measured iff flagged or measure-all.  Together with `C05_hob_eq_spec` (the TD HOB region's
-    buffer is the specification's block over the declared sections and the unaccepted ranges) and
-    `C05_unaccepted_correct` (those ranges are RAM minus sections) this covers every clause of the
-    property except one gluing step that is NOT a theorem here: that the region list is the declared
-    section list in declared order with firmware-volume buffers `image[DataOffset, +size)` (model:
-    `TdxMeta.parseStep`).  That step, and the end-to-end equality itself, are checked on every run by
-    the correspondence (the driver prints the model digest AND `Spec.Mrtd.mrtdOf`; both must equal Go's)
-    and by the harness's independent recomputation. -/
-theorem C05_mrtd_eq_spec_partial (H : Bytes → Bytes) (o : LaunchOptions) (fw d : Bytes)
-    (hfw : fw.length < 2 ^ 36) (h : mrtd H o fw = .ok d) :
+/-- What validateTDXMetadataSections / extractTDXMetadata accept, in both directions: `md` is returned
+    exactly when the image carries it at the place the GUIDed table advertises (`readTDXMetadata`: the
+    code path up to and including abi.TDXMetadataFromBytes) and it is declaratively valid (`MetaValid`:
+    magic, version, length field; every section with memory size ≤ 4 GiB, range inside the 52-bit
+    space and a known type, firmware volumes with non-empty raw data inside the image and memory
+    size = raw size; at most 4 GiB declared in total; exactly one TD_HOB; a BFV; the firmware volumes'
+    raw sizes adding up, as uint32, to the image length). -/
+theorem C05_valid_metadata (fw : Bytes) (md : Codecs.TdxMetadata) :
+    extractTDXMetadata fw = .ok md ↔ readTDXMetadata fw = .ok md ∧ MetaValid (fw.length % 2 ^ 32) md :=
+  extract_iff_valid fw md
+
+/-- **Gluing lemma** (the step that used to be checked only by correspondence).  For every image (no
+    size bound), parser configuration and bank list: ExtractMaterialGuestPhysicalRegions* returns
+    `regions` exactly when the image's metadata passes validation, the declared memory ranges are
+    pairwise disjoint, the TD_HOB section `h` is among the first 2^31 entries and the generated hand-off
+    block fits it; and then `regions` is the declared section list IN DECLARED ORDER, each region with
+    the section's memory range and attributes (extend bit forced in the measure-all modes), buffer
+    `image[DataOffset, +size)` for BFV / CFV, the hand-off block built from the declared ranges in
+    declared order and `unacceptedMemRanges declared banks` for `h`, and for temporary memory a
+    zero-filled buffer of the section's size (measure-all) or no buffer (default). -/
+theorem C05_regions_are_sections (o : ParserOpts) (fw : Bytes) (banks : List Gpr) (regions : List Region) :
+    parse o fw banks = .ok regions ↔
+      ∃ md h b, extractTDXMetadata fw = .ok md ∧ DisjointL (md.sections.map gprOf) ∧
+        md.sections.find? isHob = some h ∧ md.sections.findIdx isHob < 2 ^ 31 ∧
+        getTDHOBList (gprOf h) (md.sections.map gprOf) (unacceptedMemRanges (md.sections.map gprOf) banks)
+          o.disableEarlyAccept = .ok b ∧
+        regions = md.sections.map (finalRegion o.measureAll fw b) :=
+  parse_iff o fw banks regions
+
+/-- … with the buffers spelled out. -/
+theorem C05_region_of_section (ma : Bool) (fw : Bytes) (b : HostBuf) (s : Codecs.TdxSection) :
+    (finalRegion ma fw b s).gpr = ⟨s.memoryBase, s.memorySize⟩ ∧
+    (finalRegion ma fw b s).attrs = (if ma then s.attributes ||| 1 else s.attributes) ∧
+    (finalRegion ma fw b s).buf =
+      if s.sectionType = 2 then b
+      else if s.sectionType = 0 ∨ s.sectionType = 1 then
+        ⟨(fw.drop s.dataOffset).take (s.dataOffset + s.dataSize - s.dataOffset), 0⟩
+      else ⟨[], if ma then s.memorySize else 0⟩ :=
+  ⟨finalRegion_gpr ma fw b s, finalRegion_attrs ma fw b s, finalRegion_buf ma fw b s⟩
+
+/-- **C05, end to end.**  For every hash `H`, every image `fw` (no size bound), every option
+    combination (the three launch modes: `modeOf o` is `.default`, `.measureAll` — legacy measure-all —
+    or `.measureAllEarly` — legacy measure-all with early accept; DisableUnacceptedMemory wins) and
+    every bank list that, in the two modes that use it, is pairwise disjoint and does not reach 2^64
+    (true of every machine shape: `C05_shape_banks_preconditions`):
+
+    tdx.MRTD returns the digest `d`  ⟺  the image has VALID TDVF metadata `md` (`Valid`: located and
+    decoded from the image, `MetaValid`, pairwise disjoint page-aligned memory ranges, TD_HOB among the
+    first 2^31 entries, and — unless everything is measured — no non-empty temporary-memory section
+    flagged for extension) and `d` is `H` of the specification's stream (`Spec.Mrtd.mrtdOf`): for the
+    sections in declared order, page by page, TDH.MEM.PAGE.ADD then, if the section is flagged for
+    extension or the mode measures everything, sixteen TDH.MR.EXTEND records; contents `image[DataOffset,
+    +size)` for firmware volumes, zeros for temporary memory, and for the TD_HOB section the
+    specification's hand-off block (`Spec.TdHob.tdHob`: hand-off table, one system-memory descriptor
+    per declared section in declared order, `Spec.Intervals.difference banks sections` as unaccepted
+    memory in ascending order with the mode's early-accept attribute, end marker, zero padding) — the
+    stream exists exactly when that block fits its section.
+
+    In particular: never a digest for invalid metadata, never a digest different from the
+    specification's, and a digest for every valid image whose hand-off block fits. -/
+theorem C05_mrtd_eq_spec (H : Bytes → Bytes) (o : LaunchOptions) (fw d : Bytes)
+    (hb : modeOf o ≠ .default → NoOverflow o.banks ∧ DisjointL o.banks) :
+    mrtd H o fw = .ok d ↔
+      ∃ md, Valid (modeOf o) fw md ∧
+        Spec.Mrtd.mrtdOf H (modeOf o) fw (o.banks.map pair) (md.sections.map metaOf) = some d :=
+  mrtd_iff H o fw d hb
+
+/-- … and for every GCE machine shape of the regenerated table the bank precondition is discharged: with
+    the banks `machineTypeToRAMBanks` selects for a known machine type (what LaunchOptionsDefaultTDHOBBug
+    and generateAllPossibleMRTDs pass), in the legacy measure-all mode (`early = false`) and the legacy
+    measure-all mode with early accept (`early = true`), the equivalence holds with no hypothesis left. -/
+theorem C05_mrtd_eq_spec_shapes (H : Bytes → Bytes) (name : String) (s : Shape)
+    (hs : findShape Gen.TdxConsts.shapes name = some s) (early : Bool) (fw d : Bytes) :
+    ∃ banks, machineTypeToRAMBanks Gen.TdxConsts.shapes name = .ok banks ∧
+      (mrtd H { banks := banks, disableUnacceptedMemory := early, measureAllRegions := true } fw = .ok d ↔
+        ∃ md, Valid (if early then .measureAllEarly else .measureAll) fw md ∧
+          Spec.Mrtd.mrtdOf H (if early then .measureAllEarly else .measureAll) fw (banks.map pair)
+            (md.sections.map metaOf) = some d) := by
+  obtain ⟨banks, h1, _, h3, h4, _⟩ := C05_shape_banks_preconditions name s hs
+  refine ⟨banks, h1, ?_⟩
+  have hm : modeOf { banks := banks, disableUnacceptedMemory := early, measureAllRegions := true } =
+      (if early then .measureAllEarly else .measureAll) := by cases early <;> rfl
+  have := C05_mrtd_eq_spec H { banks := banks, disableUnacceptedMemory := early, measureAllRegions := true } fw d
+    (fun _ => ⟨h3, h4⟩)
+  rw [hm] at this
+  exact this
+
+-- non-vacuity of `C05_mrtd_eq_spec`: a concrete 4 KiB image (Proofs/TdxExample.lean: BFV = the image,
+-- a TD_HOB page, two temporary-memory pages, metadata found through the GUIDed table) is `Valid`, the
+-- specification's stream exists for it, and tdx.MRTD returns its hash — default mode and legacy
+-- measure-all mode with a bank; and the empty image is not valid, so it never yields a digest
+example (mode : Spec.Mrtd.Mode) : Valid mode TdxExample.exFw TdxExample.exMd := TdxExample.ex_valid mode
+example (H : Bytes → Bytes) : ∃ d, mrtd H {} TdxExample.exFw = .ok d ∧
+    Spec.Mrtd.mrtdOf H .default TdxExample.exFw [] (TdxExample.exMd.sections.map metaOf) = some d := by
+  obtain ⟨s, hs, hm⟩ := TdxExample.ex_mrtd_default H
+  exact ⟨H s, hm, by unfold Spec.Mrtd.mrtdOf; rw [hs]; rfl⟩
+example (H : Bytes → Bytes) :
+    ∃ d, mrtd H { banks := TdxExample.exBanks, measureAllRegions := true } TdxExample.exFw = .ok d := by
+  obtain ⟨s, _, hm⟩ := TdxExample.ex_mrtd_all H
+  exact ⟨H s, hm⟩
+
+/-- The form the driver evaluates on every correspondence case: whenever tdx.MRTD returns a digest and
+    `md` is the metadata extractTDXMetadata returns for the image, the specification's digest over
+    `md`'s sections exists and is that digest. -/
+theorem C05_mrtd_digest_is_spec (H : Bytes → Bytes) (o : LaunchOptions) (fw d : Bytes) (md : Codecs.TdxMetadata)
+    (hb : modeOf o ≠ .default → NoOverflow o.banks ∧ DisjointL o.banks)
+    (hmd : extractTDXMetadata fw = .ok md) (h : mrtd H o fw = .ok d) :
+    Spec.Mrtd.mrtdOf H (modeOf o) fw (o.banks.map pair) (md.sections.map metaOf) = some d := by
+  obtain ⟨md', hv, hd⟩ := (C05_mrtd_eq_spec H o fw d hb).mp h
+  have h1 := ((C05_valid_metadata fw md).mp hmd).1
+  rw [hv.located] at h1
+  injection h1 with h1
+  rw [← h1]; exact hd
+
+/-- Invalid TDVF metadata never yields a digest (one clause per way `Valid` can fail is an instance). -/
+theorem C05_rejects_invalid (H : Bytes → Bytes) (o : LaunchOptions) (fw : Bytes)
+    (hb : modeOf o ≠ .default → NoOverflow o.banks ∧ DisjointL o.banks)
+    (hinv : ∀ md, ¬ Valid (modeOf o) fw md) : ∀ d, mrtd H o fw ≠ .ok d := by
+  intro d h
+  obtain ⟨md, hv, _⟩ := (C05_mrtd_eq_spec H o fw d hb).mp h
+  exact hinv md hv
+
+-- non-vacuity: the empty image has no valid metadata
+example (H : Bytes → Bytes) (d : Bytes) : mrtd H {} [] ≠ .ok d :=
+  C05_rejects_invalid H {} [] (fun h => absurd rfl h)
+    (fun md hv => by have := hv.located; simp [readTDXMetadata, GuidTable.getFwGUIDToBlockMap, GuidTable.getFwGUIDTable] at this) d
+
+/-- The records hashed are those of the regions in order (kept from the first round; now a corollary
+    used by C08's cost bounds): MRTD = H over the specification's record stream of the returned regions. -/
+theorem C05_mrtd_region_stream (H : Bytes → Bytes) (o : LaunchOptions) (fw d : Bytes)
+    (h : mrtd H o fw = .ok d) :
     ∃ regions, mrtdRegions o fw = .ok regions ∧
       d = H (regions.flatMap (fun r => Spec.Mrtd.sectionRecs (specSectionOf o.measureAllRegions r))) :=
-  mrtd_eq_region_stream H o fw d hfw h
+  mrtd_eq_region_stream H o fw d h
 
 -- non-vacuity: a measured one-page region yields 128 + 16·384 bytes, an unmeasured one 128
 example : (initMemoryRegion false ⟨⟨0x1000, 0x1000⟩, ⟨[], 4096⟩, 1⟩).isOk = true := by decide
